@@ -65,6 +65,11 @@ CHECKS = {
     text="TLC runs the fusion loop on every well-formed plan DAG of N nodes (partition-wise or not, (npartitions, ndim) shapes, up to two operands, shared nodes), exploring every order in which the code may walk its sets, and checks that each output partition of the fused plan is the same symbolic term as in the unfused plan, that the layout is unchanged and that the loop ends within N passes. The enumerated shapes are realised through the API where a realisation exists and executed with fusion on and off - also with the root rebuilt over an already optimized operand and with operations applied to optimized collections, which is how nested groups arise - together with a template family of scalar chains broadcast into partition-wise ops, seeded random DAGs and TLC-generated query programs; TLC compares npartitions, divisions, schema and every partition's rows.",
     note="Trusted: TLC; rows numbered by index label + values (labels ignored below merges, partitions as bags below hash/disk shuffles). MapPartitions' any-ndim broadcast rule and two-operand non-partition-wise nodes are not realised from shapes.",
     design="5.2 C14"),
+ "C05": dict(
+    technique="TLA+ scheduler model (Sched.tla): hazard analysis on small graphs by TLC, and TLC -simulate schedules of the dependency graph of every real task graph; the real tasks are executed in those orders (plus adversarial orders per shared key, repeated computes, thread pools) with content hashes of every argument before/after each call; SchedTrace.tla validates",
+    text="TLC shows on small graphs that every task sees pristine inputs under all schedules exactly when no task modifies an argument, and produces complete schedules for the dependency structure of each real graph. The harness runs the real tasks one by one in the canonical order, in the TLC-generated orders and in orders that put each consumer of a shared key first / last, hashing all argument objects before and after every call, all outputs, and the user's source objects; it also recomputes collections and uses real thread pools. TLC validates per execution: dependencies finished first, each key written once, inb = ina for every task (no mutation), every key's output equals the canonical run's, sources intact, final result equal.",
+    note="Trusted: TLC; sha1-of-pickle content hashes; partd files / barrier tokens of disk shuffles are treated as external state by design; outputs below a disk shuffle are hashed order-insensitively; thread-pool runs are a sample of interleavings (final result and sources only).",
+    design="5.3 C05"),
 }
 
 def main():
